@@ -103,8 +103,18 @@ def fill_params(rng, c, nstates):
     if kind in ("HKY", "GTR", "GS", "GN", "MG94"):
         c["pi"] = [gen_freqs(rng, n, c["skew"]) for _ in range(pr)]
     npairs = n * (n - 1) // 2
-    if kind == "HKY":
+    # nearly reducible chains: two blocks of states {A,G} | {C,T} joined by a trickle, so that the rate matrix has a
+    # SMALL non-zero eigenvalue (1e-9 .. 3e-7 after normalisation) next to the exact zero of the stationary
+    # distribution — the part of the spectrum where "it is zero up to round-off" is wrong
+    c["trickle"] = kind in ("HKY", "GTR") and rng.random() < 0.15
+    if kind == "HKY" and c["trickle"]:
+        c["kappa"] = [logu(rng, 3e6, 1e9) for _ in range(rr)]
+    elif kind == "HKY":
         c["kappa"] = [gen_rate(rng, c["wide"]) for _ in range(rr)]
+    elif kind == "GTR" and c["trickle"]:
+        # order of the six exchangeabilities: AC AG AT CG CT GT
+        c["rates"] = [[(logu(rng, 0.3, 3.0) if j in (1, 4) else logu(rng, 1e-9, 3e-7)) for j in range(6)]
+                      for _ in range(rr)]
     elif kind == "GTR":
         c["rates"] = [[gen_rate(rng, c["wide"]) for _ in range(6)] for _ in range(rr)]
     elif kind in ("GS", "GN"):
